@@ -244,8 +244,11 @@ def gen_ops(r, fterms, defaults=None, positional=False):
         v = dict(base); v[m] = [base[m][0], base[m][1], base[m][2] + [["inst", K.IDX[K.U]]]]
         for path in ('deep_copy_with', 'copy_with', 'validate'):
             ops.append({'path': path, 'vals': v, 'base': dict(base), 'recipe': ['mutate', m]})
-    # validate_types() on a valid instance and after object.__setattr__ of one field
+    # validate_types() on a valid instance and after object.__setattr__ of one field; copy_with() / deep_copy_with() without keywords on
+    # an untouched instance (the copy EQUALS the original, which is still alive in the calling frame)
     ops.append({'path': 'validate', 'vals': dict(base), 'base': dict(base), 'recipe': ['plain']})
+    for path in ('copy_with', 'deep_copy_with'):
+        ops.append({'path': path, 'vals': dict(base), 'base': dict(base), 'recipe': ['plain']})
     n2 = r.choice(names)
     v = dict(base); v[n2] = corrupt(base[n2])
     ops.append({'path': 'validate', 'vals': v, 'base': dict(base), 'recipe': ['setattr', n2]})
